@@ -2183,7 +2183,7 @@ func (e *Exec) index(fr *Frame, i *ssa.Index) Value {
 		}
 		return copyVal(b.E[idx.sval()])
 	case Str:
-		e.unsupported("string indexing")
+		return e.strByteAt(b, idx)
 	}
 	e.unsupported("Index on %T", x)
 	return nil
@@ -2230,7 +2230,11 @@ func (e *Exec) sliceOp(fr *Frame, i *ssa.Slice) Value {
 		}
 		return Slice{Arr: b.Obj, Off: lo, Len: hi - lo, Cap: mx - lo}
 	case Str:
-		e.unsupported("string slicing")
+		lo := getI(i.Low, 0)
+		if i.High == nil {
+			return e.strSlice(b, int64(lo), 0, false)
+		}
+		return e.strSlice(b, int64(lo), int64(getI(i.High, 0)), true)
 	}
 	e.unsupported("Slice on %T", x)
 	return nil
@@ -2331,6 +2335,8 @@ func (e *Exec) binop(op token.Token, x, y Value, xt, yt types.Type) Value {
 			return e.strEq(a, b)
 		case token.NEQ:
 			return bNot(e.strEq(a, b))
+		case token.LSS, token.LEQ, token.GTR, token.GEQ:
+			return e.strOrder(a, b, op)
 		}
 	case Wide:
 		e.unsupported("native operators on ghost wide ints")
@@ -2445,7 +2451,10 @@ func (e *Exec) convert(x Value, from, to types.Type) Value {
 			return e.iToFX(v)
 		}
 		if b, ok := to.Underlying().(*types.Basic); ok && b.Info()&types.IsString != 0 {
-			e.unsupported("int to string conversion")
+			if v.IsC {
+				return lit(string(rune(int32(v.sval()))))
+			}
+			return Str{P: []Piece{{K: pRune, I: iConv(v, 32, true)}}}
 		}
 	case Float:
 		if w, s, ok := intInfo(to); ok {
@@ -2543,7 +2552,7 @@ func (e *Exec) lookup(fr *Frame, i *ssa.Lookup) Value {
 		}
 		return val
 	case Str:
-		e.unsupported("string index lookup")
+		return e.strByteAt(m, e.get(fr, i.Index).(Int))
 	}
 	e.unsupported("lookup on %T", x)
 	return nil
@@ -2564,6 +2573,9 @@ func (e *Exec) rangeInit(x Value) Value {
 			}
 		}
 		return it
+	}
+	if st, ok := x.(Str); ok {
+		return e.strRange(st)
 	}
 	e.unsupported("range over %T", x)
 	return nil
@@ -2615,6 +2627,14 @@ func (e *Exec) rangeNext(fr *Frame, i *ssa.Next) Value {
 		k, v := m.keys[m.i], m.vals[m.i]
 		m.i++
 		return Tuple{mkBool(true), copyVal(k), copyVal(v)}
+	}
+	if m, ok := it.(*strIter); ok {
+		if m.i >= len(m.idx) {
+			return Tuple{mkBool(false), mkI64(0), mkInt(32, true, 0)}
+		}
+		k := m.i
+		m.i++
+		return Tuple{mkBool(true), mkI64(m.idx[k]), m.runes[k]}
 	}
 	e.unsupported("next on %T", it)
 	return nil
@@ -2718,10 +2738,7 @@ func (e *Exec) builtin(fr *Frame, b *ssa.Builtin, c *ssa.CallCommon, args []Valu
 			}
 			return mkI64(int64(len(x.M.entries)))
 		case Str:
-			if x.isLit() {
-				return mkI64(int64(len(x.litVal())))
-			}
-			e.unsupported("len of symbolic string %s", x)
+			return e.strLen(x)
 		case Array:
 			return mkI64(int64(len(x.E)))
 		case Ptr:
@@ -2848,6 +2865,23 @@ func (e *Exec) strEq(a, b Str) Bool {
 	if a.isLit() && b.isLit() {
 		return mkBool(a.litVal() == b.litVal())
 	}
+	if len(b.P) == 1 && b.P[0].K == pRune {
+		a, b = b, a
+	}
+	if len(a.P) == 1 && a.P[0].K == pRune {
+		// string(r) is exactly one rune
+		if !b.isLit() {
+			e.unsupported("string(rune) compared with a symbolic string")
+		}
+		rs := []rune(b.litVal())
+		if len(rs) != 1 {
+			return mkBool(false)
+		}
+		if rs[0] == 0xFFFD {
+			e.unsupported("string(rune) compared with U+FFFD")
+		}
+		return iCmp("==", a.P[0].I, mkInt(32, true, uint64(uint32(rs[0]))))
+	}
 	fa, fb := a.splitSep("/"), b.splitSep("/")
 	if len(fa) != len(fb) {
 		return mkBool(false)
@@ -2891,8 +2925,23 @@ func (e *Exec) fieldEq(x, y Str) Bool {
 	if x.isLit() && y.isLit() {
 		return mkBool(x.litVal() == y.litVal())
 	}
-	if len(x.P) > 1 || len(y.P) > 1 {
-		e.unsupported("string equality on composite fields %s vs %s", x, y)
+	numeric := func(z Str) int {
+		if len(z.P) == 1 && (z.P[0].K == pDec || z.P[0].K == pQuat || z.P[0].K == pDigit) {
+			return z.P[0].K
+		}
+		return -1
+	}
+	if len(x.P) > 1 || len(y.P) > 1 || (numeric(x) >= 0 && numeric(y) >= 0 && numeric(x) != numeric(y)) {
+		// character-wise comparison (forks on digit counts)
+		cx, cy := e.chars(x, "string equality on composite fields"), e.chars(y, "string equality on composite fields")
+		if len(cx) != len(cy) {
+			return mkBool(false)
+		}
+		acc := mkBool(true)
+		for k := range cx {
+			acc = bAnd(acc, iCmp("==", charCode(cx[k], 8, false), charCode(cy[k], 8, false)))
+		}
+		return acc
 	}
 	var p, q Piece
 	if len(x.P) == 0 {
@@ -2917,7 +2966,7 @@ func (e *Exec) fieldEq(x, y Str) Bool {
 	case p.K == pDec && q.K == pDec:
 		return iCmp("==", p.I, q.I)
 	case p.K == pLit && q.K == pDigit:
-		if len(p.S) == 1 && p.S[0] >= '0' && p.S[0] <= '3' {
+		if len(p.S) == 1 && p.S[0] >= '0' && p.S[0] <= '9' {
 			return iCmp("==", q.I, mkInt(q.I.W, q.I.Signed, uint64(p.S[0]-'0')))
 		}
 		return mkBool(false)
